@@ -469,6 +469,18 @@ static void gen_expiry(struct scen *sc, struct rng *r, long c)
 	sc->cfg.others = rndp(r, 3, 4);
 	if (!sc->cfg.others)
 		CNT("c08/expiry_scenarios_on_otherwise_empty_tables");
+	if (c % 5 == 1) {
+		/* the cache turns into a version-0 cache right after the first synchronisation and says so at once (notify):
+		 * the session is downgraded in place while router keys learned under version 1 are held; the outage then
+		 * has to take them away as well */
+		add_event(&sc->cfg, 1, 4, 0);
+		add_event(&sc->cfg, 2, 2, 0);
+		if (sc->cfg.outage_from < 8) {
+			sc->cfg.outage_until += 8 - sc->cfg.outage_from;
+			sc->cfg.outage_from = 8;
+		}
+		CNT("c07/scenarios_with_in_place_downgrade");
+	}
 }
 
 static void gen_stops(struct scen *sc, struct rng *r, long c)
@@ -482,6 +494,12 @@ static void gen_stops(struct scen *sc, struct rng *r, long c)
 		sc->cfg.stop_in_callback = 1 + (long)rndn(r, 12);
 		sc->cfg.horizon = 200000; /* backstop if that many callbacks never happen */
 		sc->callbacks = true;
+	}
+	if (c % 5 == 1) {
+		/* in-place downgrade to version 0 before the stop (see gen_expiry) */
+		add_event(&sc->cfg, 1, 4, 0);
+		add_event(&sc->cfg, 2, 2, 0);
+		CNT("c07/scenarios_with_in_place_downgrade");
 	}
 	sc->restart_after_phase1 = 1;
 	sc->cfg2 = sc->cfg;
